@@ -348,6 +348,11 @@ func (fm *Server) mount(ctx context.Context, mountpoint string, labels map[strin
 		return nil
 	}
 
+	// curFs is nil until an Init has built a filesystem (Init marks the manager ready even when it fails)
+	if fm.curFs == nil {
+		return fmt.Errorf("filesystem is not initialized")
+	}
+
 	err := fm.curFs.Mount(ctx, mountpoint, labels)
 	if err != nil {
 		log.G(ctx).WithError(err).Errorf("failed to mount stargz")
